@@ -134,8 +134,21 @@ def main():
                     Conductor.store_study(study)
                     Conductor.store_batch(root, j.get("batch", {"type": "local"}))
             else:
-                study = Conductor.load_study(root)
-                batch = Conductor.load_batch(root)
+                # the conductor is told where the study is in the user's words: another spelling of the
+                # same directory (a trailing slash, a doubled slash, a detour through `..`, a relative
+                # path) names the same study (seeded change C18-p rewrote the study's output path with it)
+                spell = sum(map(ord, j["id"])) % 5
+                alt = root
+                if spell == 1:
+                    alt = root + "/"
+                elif spell == 2:
+                    alt = os.path.dirname(root) + "//" + os.path.basename(root)
+                elif spell == 3:
+                    alt = os.path.join(root, "..", os.path.basename(root))
+                elif spell == 4:
+                    alt = os.path.relpath(root)
+                study = Conductor.load_study(alt)
+                batch = Conductor.load_batch(alt)
             out, dag = SS.stage_real(study)
             item = {"id": j["id"], "out": out.split(" ")[0]}
             if dag is not None:
